@@ -143,4 +143,13 @@ theorem c06_no_lock_order_cycle {m : Nat}
     ¬ FV.Locks.Chain FV.Generated.Locks.facts m m :=
   FV.Locks.acyclic_sound _ _ _ c06_lock_order_acyclic hrel
 
+/-- **Fields are written under their lock** (regenerated from lib/go on every check): no method writes a field
+of a mutex-holding struct (the registry's channel map) while no mutex of that struct is write-held — by assignment, `++`, `delete` or an
+atomic store — unless the site is one of the hand-classified set-up / single-owner sites of
+`known/locks_unguarded_expected.txt`. The atomic-step models read and write such state in ONE critical section;
+a value computed from a read under the lock and stored after it was released (a lazily filled cache) is a lost
+update the models cannot exhibit and the race detector does not see. -/
+theorem c06_fields_written_under_lock :
+    FV.Locks.writesGuarded [1] FV.Generated.Locks.unguardedUnexpected = true := by decide +kernel
+
 end FV.C06
